@@ -9,7 +9,8 @@
           `one = B^n mod m`, `mod_neg_inv·m ≡ −1`),
     T08.4 `CB.P08.amm_congruence_and_bound`, `CB.P08.amm_reduction_error` (almost-Montgomery multiplication),
           `CB.P08.boxed_retrieve_reduced` (`AmmOneOK`), `CB.Monty.opNew_canon`, `CB.Monty.opRetrieve_canon`,
-    C07/C08 `CB.Monty.subModWithCarry_spec`, `CB.Monty.addMod_spec` (lincomb recombination).
+    C07/C08 `CB.Monty.addTail_spec` (`sub_mod_with_carry`), `CB.Monty.addMod_spec`, `CB.Monty.lowlimb_cancel`
+          (lincomb reduction / recombination).
   Wide multiplication inside `mulMont` is a value-level call (exactness of mul is C03).
 
   Notation: `Rep ms z V` — `z` is the canonical `n`-limb Montgomery representative of the residue of `V`
@@ -189,6 +190,148 @@ example : ∃ ms one x e k X bits, ModOK ms k ∧ Pow.Rep ms one 1 ∧ Pow.Rep m
     ⟨WF_of_all _ (by decide), by decide, by decide⟩,
     ⟨WF_of_all _ (by decide), rfl, by decide⟩, ⟨WF_of_all _ (by decide), rfl, by decide⟩,
     WF_of_all _ (by decide), by decide +kernel⟩
+
+/-! ## T09.4 — `lincomb_vartime` = Σ aᵢ·bᵢ mod m for any number of terms, windowing included -/
+
+/-- One accumulation window of `impl_longa_monty_lincomb!` (DESIGN.md's `H_longa_bound`, PROVED, not assumed): for
+    every limb count, every list of at most `B^n / m` pairs of reduced values, no `hi` / `hi_carry` update wraps,
+    the accumulator `U = u + hi_carry·B^n` is `< 2m` (so `hi_carry ≤ 1` and ONE conditional subtraction
+    suffices) and `U·B^n ≡ Σ aᵢ·bᵢ (mod m)`. -/
+theorem longa_window_exact (ms : List Nat) (k : Nat) (terms : List (List Nat × List Nat))
+    (hm : ModOK ms k) (hT : TermsOK ms.length (val ms) terms) (hcap : terms.length * val ms ≤ B ^ ms.length) :
+    (longa terms ms k).2 ≤ 1 ∧
+    val (longa terms ms k).1 + B ^ ms.length * (longa terms ms k).2 < 2 * val ms ∧
+    (val (longa terms ms k).1 + B ^ ms.length * (longa terms ms k).2) * B ^ ms.length ≡ valDot terms
+      [MOD val ms] := by
+  have ⟨_, _, h3, h4, h5⟩ := longa_spec hm hT hcap
+  exact ⟨h3, h4, h5⟩
+
+/-- `lincomb_monty_form` / `lincomb_const_monty_form` / `lincomb_boxed_monty_form` on Montgomery forms, for every
+    limb count, ANY number of terms (none, one window, many windows) and every `mod_leading_zeros` value `lz` with
+    `2^lz·m ≤ B^n`: the result is the canonical Montgomery form of `Σ Aᵢ·Bᵢ`, `retrieve()` returns
+    `Σ Aᵢ·Bᵢ mod m`, and the boxed routine returns the same limbs as the fixed-width one. -/
+theorem lincomb_exact (ms : List Nat) (k lz : Nat) (terms : List (List Nat × List Nat)) (XYs : List (Nat × Nat))
+    (hm : ModOK ms k) (hlz : 2 ^ lz * val ms ≤ B ^ ms.length) (h : List.Forall₂ (PairOK ms) terms XYs) :
+    Pow.Rep ms (lincombFixed terms ms k lz) (dotSpec XYs) ∧
+    val (retrieveMont (lincombFixed terms ms k lz) ms k) = sumSpec (val ms) XYs ∧
+    lincombBoxed terms ms k lz = lincombFixed terms ms k lz := by
+  have ⟨hT, hS⟩ := terms_of_pairs hm h
+  have ⟨hw, hb⟩ := lincomb_spec (lz := lz) hm hlz hT
+  have r := hw.rep hm hS
+  exact ⟨r, by rw [(r.retrieve hm).1, sumSpec_eq], hb⟩
+
+/-- the window split itself: more than `2^lz` terms are processed in windows of `2^lz` and recombined with
+    `add_mod`; at most `2^lz` terms take the single-window path. Both give the same sum (consequence of
+    `lincomb_exact`, stated for the record: the result does not depend on `lz`). -/
+theorem lincomb_independent_of_window (ms : List Nat) (k lz₁ lz₂ : Nat) (terms : List (List Nat × List Nat))
+    (XYs : List (Nat × Nat)) (hm : ModOK ms k) (h₁ : 2 ^ lz₁ * val ms ≤ B ^ ms.length)
+    (h₂ : 2 ^ lz₂ * val ms ≤ B ^ ms.length) (h : List.Forall₂ (PairOK ms) terms XYs) :
+    lincombFixed terms ms k lz₁ = lincombFixed terms ms k lz₂ := by
+  have a := (lincomb_exact ms k lz₁ terms XYs hm h₁ h).1
+  have b := (lincomb_exact ms k lz₂ terms XYs hm h₂ h).1
+  exact val_inj a.wf b.wf (by rw [a.len, b.len]) (by rw [a.eq, b.eq])
+
+/-- every constructor's `mod_leading_zeros` (= `min(leading_zeros(m), 63)`, C08 T08.2) satisfies the window
+    premise. -/
+theorem constructors_window_ok (n m : Nat) (hm : m < B ^ n) (hodd : m % 2 = 1) :
+    2 ^ (paramsSpec n m).modLeadingZeros * m ≤ B ^ n :=
+  lz_ok hm (by omega)
+
+theorem pairs_of_new {st : State} {n m : Nat} (g : Good st.params n m) (abs : List (Nat × Nat))
+    (hv : ∀ ab ∈ abs, ab.1 < B ^ n ∧ ab.2 < B ^ n) :
+    List.Forall₂ (PairOK st.params.modulus) (abs.map fun ab => (opNew st ab.1, opNew st ab.2))
+      (abs.map fun ab => (ab.1 % m, ab.2 % m)) := by
+  induction abs with
+  | nil => exact List.Forall₂.nil
+  | cons a r ih =>
+    have ⟨h1, h2⟩ := hv a (List.mem_cons_self ..)
+    refine List.Forall₂.cons ⟨?_, ?_⟩ (ih fun ab hab => hv ab (List.mem_cons_of_mem _ hab))
+    · show Pow.Rep _ (opNew st a.1) (a.1 % m)
+      rw [opNew_canon g (ammMulOK_holds g.mlt g.k) h1]; exact rep_canon g _
+    · show Pow.Rep _ (opNew st a.2) (a.2 % m)
+      rw [opNew_canon g (ammMulOK_holds g.mlt g.k) h2]; exact rep_canon g _
+
+/-- API level, on any `Good` parameter set whose `mod_leading_zeros` satisfies the window premise, in ANY of the
+    three representations: for every list of integer pairs `(aᵢ, bᵢ)` (each converted with `new`),
+    `lincomb_vartime(…)` is the canonical form of `Σ aᵢ·bᵢ mod m` and `retrieve()` returns `Σ aᵢ·bᵢ mod m`. -/
+theorem lincomb_good {st : State} {n m : Nat} (g : Good st.params n m)
+    (hlz : 2 ^ st.params.modLeadingZeros * m ≤ B ^ n) (abs : List (Nat × Nat))
+    (hv : ∀ ab ∈ abs, ab.1 < B ^ n ∧ ab.2 < B ^ n) :
+    opLincomb st (abs.map fun ab => (opNew st ab.1, opNew st ab.2)) = canon n m (dotSpec abs % m) ∧
+    opRetrieve st (opLincomb st (abs.map fun ab => (opNew st ab.1, opNew st ab.2))) =
+      toLimbs n (dotSpec abs % m) := by
+  have hmk := modOK_of_good g
+  have hv' : val st.params.modulus = m := by rw [g.modulus]; exact val_toLimbs_lt g.mlt
+  have hl : st.params.modulus.length = n := by rw [g.modulus]; exact toLimbs_length _ _
+  have hp := pairs_of_new g abs hv
+  have ⟨r, _, hb⟩ := lincomb_exact _ _ st.params.modLeadingZeros _ _ hmk (by rw [hv', hl]; exact hlz) hp
+  have hop : opLincomb st (abs.map fun ab => (opNew st ab.1, opNew st ab.2)) =
+      lincombFixed (abs.map fun ab => (opNew st ab.1, opNew st ab.2)) st.params.modulus st.params.modNegInv
+        st.params.modLeadingZeros := by
+    unfold opLincomb
+    split
+    · exact hb
+    · rfl
+  have hcan : opLincomb st (abs.map fun ab => (opNew st ab.1, opNew st ab.2)) = canon n m (dotSpec abs % m) := by
+    rw [hop, eq_canon_of_rep g r]
+    exact canon_congr ((dotSpec_mod m abs).trans (Nat.mod_modEq _ _).symm)
+  refine ⟨hcan, ?_⟩
+  rw [hcan]
+  exact opRetrieve_canon g (ammOneOK_holds g.mlt g.k) (Nat.mod_lt _ g.pos)
+
+/-- … in particular from ANY parameter constructor, for every limb count `n` and every odd modulus `m < B^n`,
+    whatever its number of leading zero bits, and ANY number of terms. `sumSpec` is the driver's L0. -/
+theorem lincomb_from_constructors (n m : Nat) (hm : m < B ^ n) (hodd : m % 2 = 1)
+    (rep : Monty.Rep) (p : Params)
+    (hp : p = paramsNew (toLimbs n m) ∨ p = paramsNewVartime (toLimbs n m) ∨ p = paramsConst (toLimbs n m) ∨
+          p = paramsBoxed (toLimbs n m))
+    (abs : List (Nat × Nat)) (hv : ∀ ab ∈ abs, ab.1 < B ^ n ∧ ab.2 < B ^ n) :
+    opRetrieve { rep := rep, params := p, store := [] }
+      (opLincomb { rep := rep, params := p, store := [] }
+        (abs.map fun ab => (opNew { rep := rep, params := p, store := [] } ab.1,
+                            opNew { rep := rep, params := p, store := [] } ab.2)))
+      = toLimbs n (sumSpec m abs) ∧
+    opLincomb { rep := rep, params := p, store := [] }
+        (abs.map fun ab => (opNew { rep := rep, params := p, store := [] } ab.1,
+                            opNew { rep := rep, params := p, store := [] } ab.2))
+      = canon n m (sumSpec m abs) := by
+  have ⟨a, b, c, d⟩ := CB.P08.constructors_yield_constants n m hm hodd
+  have hps : p = paramsSpec n m := by
+    rcases hp with h | h | h | h <;> rw [h] <;> assumption
+  have g : Good (State.mk rep p []).params n m := hps ▸ good_spec hm hodd
+  have hlz : 2 ^ (State.mk rep p []).params.modLeadingZeros * m ≤ B ^ n := by
+    show 2 ^ p.modLeadingZeros * m ≤ B ^ n
+    rw [hps]; exact constructors_window_ok n m hm hodd
+  have ⟨r1, r2⟩ := lincomb_good g hlz abs hv
+  rw [sumSpec_eq]
+  exact ⟨r2, r1⟩
+
+/-! ## T09.5 (lincomb) — the compile-time, runtime and boxed implementations agree -/
+
+theorem lincomb_representations_agree (n m : Nat) (hm : m < B ^ n) (hodd : m % 2 = 1)
+    (rep₁ rep₂ : Monty.Rep) (p₁ p₂ : Params)
+    (hp₁ : p₁ = paramsNew (toLimbs n m) ∨ p₁ = paramsNewVartime (toLimbs n m) ∨ p₁ = paramsConst (toLimbs n m) ∨
+          p₁ = paramsBoxed (toLimbs n m))
+    (hp₂ : p₂ = paramsNew (toLimbs n m) ∨ p₂ = paramsNewVartime (toLimbs n m) ∨ p₂ = paramsConst (toLimbs n m) ∨
+          p₂ = paramsBoxed (toLimbs n m))
+    (abs : List (Nat × Nat)) (hv : ∀ ab ∈ abs, ab.1 < B ^ n ∧ ab.2 < B ^ n) :
+    opLincomb { rep := rep₁, params := p₁, store := [] }
+        (abs.map fun ab => (opNew { rep := rep₁, params := p₁, store := [] } ab.1,
+                            opNew { rep := rep₁, params := p₁, store := [] } ab.2)) =
+    opLincomb { rep := rep₂, params := p₂, store := [] }
+        (abs.map fun ab => (opNew { rep := rep₂, params := p₂, store := [] } ab.1,
+                            opNew { rep := rep₂, params := p₂, store := [] } ab.2)) := by
+  rw [(lincomb_from_constructors n m hm hodd rep₁ p₁ hp₁ abs hv).2,
+      (lincomb_from_constructors n m hm hodd rep₂ p₂ hp₂ abs hv).2]
+
+/-- non-vacuity: 1 limb, m = 2^64 − 1 (no leading zero: every term is its own window), three terms
+    (m−1)·(m−1) each: Σ = 3 mod m. -/
+example : opRetrieve { rep := .dyn, params := paramsNew [WMAX], store := [] }
+    (opLincomb { rep := .dyn, params := paramsNew [WMAX], store := [] }
+      ([(WMAX - 1, WMAX - 1), (WMAX - 1, WMAX - 1), (WMAX - 1, WMAX - 1)].map fun ab =>
+        (opNew { rep := .dyn, params := paramsNew [WMAX], store := [] } ab.1,
+         opNew { rep := .dyn, params := paramsNew [WMAX], store := [] } ab.2))) = [3] := by
+  decide +kernel
 
 /-! ## modulus 1 on the `exponent_bits = 0` path (was finding C09-modulus-one-pow-zero-bits; repaired by the
      `fix:` commit b15470f, which reduces `params.one`) -/
